@@ -81,7 +81,8 @@ def gen_op(s: Choices, family: str, ds, mask_kinds=("none", "bool", "slice", "po
             op["halflife"] = ["2s", "500ms"][s.draw(2)]
             op["steps"] = [1 + s.draw(3) for _ in range(ds["n"])]
     elif name in ("head", "tail", "nth"):
-        op["n"] = s.draw(4) if name != "nth" else s.draw(4) - 1
+        # n beyond the largest group selects every row (pandas may then hand out a view)
+        op["n"] = [0, 1, 2, 3, 1000][s.draw(5)] if name != "nth" else s.draw(4) - 1
         op["keep_input_index"] = not s.chance(1, 5)
     elif name == "group_nearby_members":
         op["max_diff"] = 1 + s.draw(3)
